@@ -42,7 +42,8 @@ GROUPS: dict[str, list[tuple[str, str]]] = {
     # (py2lean_state.py -> Generated/ProblemEdit, Props/StateTie) and therefore not anchored
     "problem_edit": [("problem.py", f"Problem.{m}") for m in ("_validate_expression", "_validate_constraint",
                                                                "_only_simple_bounds", "_has_equality_constraints")],
-    "problem_read": [("problem.py", f"Problem.{m}") for m in ("variables", "n_constraints", "summary",
+    # Problem.variables: memo, shortcut test and general path are translated (py2lean_state.gen_problem_variables)
+    "problem_read": [("problem.py", f"Problem.{m}") for m in ("n_constraints", "summary",
                                                                "objective", "sense", "constraints")],
     "get_variables": [("core/expressions.py", "get_all_variables"), ("core/expressions.py", "_get_variables_iterative"),
                       ("core/expressions.py", "_estimate_tree_depth")]
